@@ -30,6 +30,10 @@ enum Summary {
     ExistingArtifact,
     MissingArtifact,
     Neither,
+    /// summary text that is empty / only whitespace (may be refused; if accepted, the handoff
+    /// must still carry a resolvable summary)
+    BlankText,
+    WhitespaceText,
 }
 
 /// Reference cut: Ok((seq, message id)) or Err(refused).
@@ -166,7 +170,7 @@ fn check_history(report: &Report, rt: &Arc<tokio::runtime::Runtime>, hist: &[H])
     for sel in selectors(&events) {
         let want = reference_cut(&events, &sel);
         for what in ["branch", "handoff"] {
-            let summaries: Vec<Summary> = if what == "branch" { vec![Summary::Text] } else { vec![Summary::Text, Summary::ExistingArtifact, Summary::MissingArtifact, Summary::Neither] };
+            let summaries: Vec<Summary> = if what == "branch" { vec![Summary::Text] } else { vec![Summary::Text, Summary::ExistingArtifact, Summary::MissingArtifact, Summary::Neither, Summary::BlankText, Summary::WhitespaceText] };
             for summary in summaries {
                 if matches!(summary, Summary::ExistingArtifact) && existing_summary.is_none() {
                     continue;
@@ -183,6 +187,8 @@ fn check_history(report: &Report, rt: &Arc<tokio::runtime::Runtime>, hist: &[H])
                         Summary::ExistingArtifact => (None, existing_summary.clone()),
                         Summary::MissingArtifact => (None, Some("f".repeat(64))),
                         Summary::Neither => (None, None),
+                        Summary::BlankText => (Some(String::new()), None),
+                        Summary::WhitespaceText => (Some(" \n\t ".to_string()), None),
                     };
                     store.handoff(&thread, None, s, sel.from_message_id.clone(), sel.from_seq, ("u".into(), "o".into()))
                 };
@@ -201,7 +207,7 @@ fn check_history(report: &Report, rt: &Arc<tokio::runtime::Runtime>, hist: &[H])
                     ),
                     (Err(e), false) => {
                         // a summary artifact id that does not resolve may legitimately be refused
-                        if !matches!(summary, Summary::MissingArtifact) {
+                        if !matches!(summary, Summary::MissingArtifact | Summary::BlankText | Summary::WhitespaceText) {
                             report.violation(&format!("C10:refused_valid_selector:{what}"), case_json(hist, what, &sel, json!({"error": e})), &format!("{what} refused a valid request: {e}"));
                         }
                     }
